@@ -12,15 +12,19 @@ Recs == ndJsonDeserialize(IOEnv.TRACE_FILE)
 Idx  == 1..Len(Recs)
 SetSeq(S) == SetToSortSeq(S, LAMBDA a, b : a < b)
 
-BadIdx  == {i \in Idx : BadAccepted(Recs[i].cred, Recs[i].status, Recs[i].reached > 0)}
-GoodIdx == {i \in Idx : GoodRefused(Recs[i].cred, Recs[i].status, Recs[i].reached > 0)}
+\* status -1: the connection was dropped without an answer; such a request is judged on "reached" only
+Answered(i) == Recs[i].status >= 0
+BadIdx  == {i \in Idx : /\ Recs[i].cred \notin CredRight
+                        /\ (Recs[i].reached > 0 \/ (Answered(i) /\ BadAccepted(Recs[i].cred, Recs[i].status, FALSE)))}
+GoodIdx == {i \in Idx : Answered(i) /\ GoodRefused(Recs[i].cred, Recs[i].status, Recs[i].reached > 0)}
+Lost    == {i \in Idx : ~Answered(i)}
 \* an operation performed more than once for one request is not "exactly the operation"
 Dup  == {i \in Idx : Recs[i].reached > 1}
 Unknown == {i \in Idx : Recs[i].cred \notin Creds}
 
 ASSUME ndJsonSerialize(IOEnv.VERDICT_FILE,
         <<[n |-> Len(Recs), badaccepted |-> SetSeq(BadIdx), goodrefused |-> SetSeq(GoodIdx), dup |-> SetSeq(Dup),
-           unknown |-> SetSeq(Unknown)]>>)
+           unknown |-> SetSeq(Unknown), lost |-> SetSeq(Lost)]>>)
 
 VARIABLE x
 Init == x = 0
